@@ -16,6 +16,7 @@ EXPLANATION = (
     ' GEN-ENC / ENC-MASK: when the returned bytes are not <int>.to_bytes(..) of OR-ed masked pieces (sums, modulo, struct.pack, joined parts), the return term is read as a vector of bits, each a constant 0 or bit k of one producer; maximal runs give (producer, width, position) rows that are checked like the OR-pieces.'
     ' Fifth round: [ENC-STATE] every use of self.<attr> in the encoder is classified (read / write / not visible): bound in __init__ and only read is configuration, written and read after construction is state between messages (violation), anything else is undecided. When the encode_number residual is not of the piecewise form it is decided on points (tick counts around every boundary, None): ENC-RANGE / SENT-AGREE / SIGN-AGREE then rest on sampled points. An encode_time call site that was not read and a payload assembled by a loop the guard extractor only approximates give no verdict.'
     ' Seventh round: the payload of a fast PGN only reaches the wire through the segmenter, so the [FP-COUNT] sweep of C03 (frames carry payload[0..L-1] once, in order) is run here too on the lengths around the frame capacities.'
+    ' Eighth round: an encoder that returns bytes for a definition with a field type the reference has no writer for gives no verdict (was: violation); the segmenter sweep refuses when the constructor keeps the sequence counter somewhere the sweep cannot set.'
 )
 ASSUMPTIONS = ["CPython ast parser", "canboat.json is the oracle", "sym.py partial evaluation (constant folding, helper inlining)",
                "Python int/round semantics: int() truncates, round() rounds to nearest"]
